@@ -456,8 +456,9 @@ def exc_typed(k, before=(), after=(), catch_all=False, value=7):
 
 def exc_catch_all(k):
     ps, as_ = _probe_params(k)
-    src = ("record R { x : int; }\n\nfunc probe(r : R%s) -> int\n{\n    r.x\n}\ncatch\n{\n    7\n}\n\n"
-           "func main() -> int\n{\n    var r = R(1);\n    r = nil;\n    print(probe(r%s));\n    0\n}\n" % (ps, as_))
+    body = "k0 + 3" if k else "7"          # two pushes after CLEAR_STACK: the second one is the peak
+    src = ("record R { x : int; }\n\nfunc probe(r : R%s) -> int\n{\n    r.x\n}\ncatch\n{\n    %s\n}\n\n"
+           "func main() -> int\n{\n    var r = R(1);\n    r = nil;\n    print(probe(r%s));\n    0\n}\n" % (ps, body, as_))
     return ("peak_exc_catchall_k%d" % k, src, None, ["peak", "exception", "clear_stack"])
 
 
@@ -510,31 +511,32 @@ def exc_closure_handler(k):
     return ("peak_exc_closure_k%d" % k, src, None, ["peak", "exception", "push_except", "closure"])
 
 
-LITERALS = [("int", "41"), ("long", "41L"), ("float", "2.5"), ("double", "2.5d"), ("char", "'c'"), ("string", "\"s\""),
-            ("c_ptr", "c_null"), ("bool", "true")]
+# (type, value of the argument, body: the parameter then the pushed construct, how main shows the result)
+LITERALS = [("int", "1", "x + 41", "int", "print(%s)"), ("long", "1L", "x + 41L", "long", "printl(%s)"),
+            ("float", "1.5", "x + 2.5", "float", "printf(%s)"), ("double", "1.5d", "x + 2.5d", "double", "printd(%s)"),
+            ("char", "'c'", "x == 'c' ? 1 : 0", "int", "print(%s)"), ("string", "\"ab\"", "x + \"s\"", "string", "prints(%s)"),
+            ("c_ptr", "c_null", "x == c_null ? 1 : 0", "int", "print(%s)")]
 
 
-def peak_literal(ty, lit, k):
-    """probe's body is one literal: its push is the deepest point"""
+def peak_literal(lit, k):
+    """probe's body pushes its first parameter and then one literal: that push is the deepest point"""
+    ty, arg, body, rty, show = lit
     ps, as_ = _probe_params(k)
-    ps, as_ = ps[2:], as_[2:]
-    show = {"int": "print(probe(%s))", "long": "printl(probe(%s))", "float": "printf(probe(%s))", "double": "printd(probe(%s))",
-            "char": "printc(probe(%s))", "string": "prints(probe(%s))", "bool": "print(probe(%s) ? 1 : 0)"}.get(ty)
-    use = (show % as_) if show else "let p = probe(%s)" % as_
-    src = "func probe(%s) -> %s\n{\n    %s\n}\n\nfunc main() -> int\n{\n    %s;\n    0\n}\n" % (ps, ty, lit, use)
+    src = "func probe(x : %s%s) -> %s\n{\n    %s\n}\n\nfunc main() -> int\n{\n    %s;\n    0\n}\n" % (
+        ty, ps, rty, body, show % ("probe(%s%s)" % (arg, as_)))
     return ("peak_lit_%s_k%d" % (ty, k), src, None, ["peak", "literal"])
 
 
 def peak_nil_record(k):
     ps, as_ = _probe_params(k)
-    src = ("record R { x : int; }\n\nfunc probe(%s) -> R\n{\n    nil\n}\n\nfunc main() -> int\n{\n    let r = probe(%s);\n"
-           "    print(r == nil ? 1 : 0);\n    0\n}\n" % (ps[2:], as_[2:]))
+    src = ("record R { x : int; }\n\nfunc probe(q : R%s) -> int\n{\n    q == nil ? 1 : 0\n}\n\nfunc main() -> int\n{\n    var r = R(1);\n"
+           "    r = nil;\n    print(probe(r%s));\n    0\n}\n" % (ps, as_))
     return ("peak_nil_record_k%d" % k, src, None, ["peak", "nil"])
 
 
 def peak_global(k):
     ps, as_ = _probe_params(k)
-    src = "let g = 17;\n\nfunc probe(%s) -> int\n{\n    g\n}\n\nfunc main() -> int\n{\n    print(probe(%s));\n    0\n}\n" % (ps[2:], as_[2:])
+    src = "let g = 17;\n\nfunc probe(x : int%s) -> int\n{\n    x + g\n}\n\nfunc main() -> int\n{\n    print(probe(1%s));\n    0\n}\n" % (ps, as_)
     return ("peak_global_k%d" % k, src, None, ["peak", "global"])
 
 
@@ -548,8 +550,8 @@ def peak_closure_entry(k):
 
 def peak_captured(k):
     """inner reads a variable of the enclosing function at the deepest point (ID_TOP / upvalue access)"""
-    src = ("func outer(v : int) -> int\n{\n    func inner(%s) -> int { v };\n    inner(%s)\n}\n\n"
-           "func main() -> int\n{\n    print(outer(9));\n    0\n}\n" % (_probe_params(k)[0][2:], _probe_params(k)[1][2:]))
+    src = ("func outer(v : int) -> int\n{\n    func inner(a : int%s) -> int { a + v };\n    inner(2%s)\n}\n\n"
+           "func main() -> int\n{\n    print(outer(9));\n    0\n}\n" % _probe_params(k))
     return ("peak_captured_k%d" % k, src, None, ["peak", "closure"])
 
 
@@ -566,14 +568,8 @@ def peak_string_ops(k):
     return ("peak_string_cat_k%d" % k, src, None, ["peak", "string"])
 
 
-def peak_read(k):
-    ps, as_ = _probe_params(k)
-    src = "func probe(%s) -> int\n{\n    read()\n}\n\nfunc main() -> int\n{\n    print(probe(%s));\n    0\n}\n" % (ps[2:], as_[2:])
-    return ("peak_read_k%d" % k, src, "12\n", ["peak", "builtin-read"])
-
-
 def peak_dim(k):
-    src = ("func probe(a[D] : int%s) -> int\n{\n    D\n}\n\nfunc main() -> int\n{\n    print(probe([ 1, 2, 3 ] : int%s));\n    0\n}\n"
+    src = ("func probe(a[D] : int, x : int%s) -> int\n{\n    x + D\n}\n\nfunc main() -> int\n{\n    print(probe([ 1, 2, 3 ] : int, 5%s));\n    0\n}\n"
            % _probe_params(k))
     return ("peak_dim_k%d" % k, src, None, ["peak", "array"])
 
@@ -590,15 +586,15 @@ def peak_programs(tier, rng):
           exc_rethrow_chain(1, 1), exc_rethrow_chain(3, 0), exc_nested_handler(1), exc_unhandled_typed(1), exc_closure_handler(1)]
     k0 = rng.randint(0, 4)
     P += [exc_typed(k0, before=tuple(rng.sample(EXC_NAMES[:4], rng.randint(0, 3)))), exc_rethrow_chain(rng.randint(1, 4), rng.randint(0, 3))]
-    for ty, lit in LITERALS:
-        P.append(peak_literal(ty, lit, rng.randint(0, 3)))
+    for lit in LITERALS:
+        P.append(peak_literal(lit, rng.randint(0, 3)))
     kk = rng.randint(0, 3)
     P += [peak_nil_record(kk), peak_global(kk), peak_closure_entry(kk), peak_captured(kk), peak_builtin(kk), peak_string_ops(kk),
-          peak_read(kk), peak_dim(kk)]
+          peak_dim(kk)]
     if thorough:
         for k in (4, 6):
             P += [exc_rethrow_chain(k, 2), exc_catch_all(k), exc_nested_handler(k), exc_closure_handler(k)]
-            P += [peak_literal(ty, lit, k) for ty, lit in LITERALS]
+            P += [peak_literal(lit, k) for lit in LITERALS]
     seen, out = set(), []
     for p in P:
         if p[0] not in seen:
